@@ -314,6 +314,16 @@ pub fn run(ctx: &mut Ctx) {
             digests.insert(d32(a));
             digests.insert(gen::root_digest(&s.elide()) /* elided form = digest */);
         }
+        // the batch entry point with the same assertion twice: two salted copies (each salting is independent)
+        {
+            ctx.eval();
+            ctx.count("salted_batch_with_repeats");
+            let s = base4.add_assertions_salted(&[plain.clone(), plain.clone(), plain.clone()], true);
+            let extra = s.assertions().len() as i64 - base4.assertions().len() as i64;
+            if extra != 3 {
+                ctx.violation("add_assertions_salted/repeats-collapsed", &format!("a batch holding the same assertion three times with salted=true added {} elements instead of 3", extra), replay());
+            }
+        }
         ctx.eval();
         ctx.count("decorrelation_sets");
         if digests.len() != 2 * reps {
@@ -327,6 +337,25 @@ pub fn run(ctx: &mut Ctx) {
         ctx.eval();
         if ds.len() != reps {
             ctx.violation("decorrelation/add_salt-collision", &format!("{} saltings gave {} distinct digests", reps, ds.len()), replay());
+        }
+        // independent saltings on DIFFERENT threads (each thread builds its own copy from the bytes)
+        if case % 40 == 0 {
+            ctx.eval();
+            ctx.count("cross_thread_saltings");
+            let bytes = env_bytes(&base);
+            let run = |bytes: Vec<u8>| {
+                std::thread::spawn(move || {
+                    let e = Envelope::try_from_cbor_data(bytes).unwrap();
+                    (0..4).map(|_| *bc_components::DigestProvider::digest(&e.add_salt()).data()).collect::<Vec<[u8; 32]>>()
+                })
+            };
+            let (h1, h2) = (run(bytes.clone()), run(bytes.clone()));
+            if let (Ok(a), Ok(b)) = (h1.join(), h2.join()) {
+                let all: HashSet<[u8; 32]> = a.iter().chain(b.iter()).cloned().collect();
+                if all.len() != a.len() + b.len() {
+                    ctx.violation("decorrelation/across-threads", "saltings of the same envelope on two threads produced equal digests", replay());
+                }
+            }
         }
         // unsalted adds are deterministic
         ctx.eval();
